@@ -21,6 +21,20 @@ Fixpoint drop_while {A} (p : A -> bool) (l : list A) : list A :=
 
 Definition trim_ascii_end (l : bytes) : bytes := rev (drop_while is_ascii_ws (rev l)).
 
+(* str::trim_end_matches(|c| c <= ' ' || c == U+3000): the lexer's blanks, from the end, char-wise.
+   On valid UTF-8 a trailing byte <= 0x20 is a whole character and U+3000 is the triple E3 80 80. *)
+Fixpoint drop_blank_rev (r : bytes) : bytes :=
+  match r with
+  | [] => []
+  | z :: t =>
+      if z <=? 32 then drop_blank_rev t
+      else match t with
+           | y :: x :: rest => if (z =? 128) && (y =? 128) && (x =? 227) then drop_blank_rev rest else r
+           | _ => r
+           end
+  end.
+Definition trim_blank_end (l : bytes) : bytes := rev (drop_blank_rev (rev l)).
+
 Definition strip_prefix (p l : bytes) : option bytes :=
   if is_prefix p l then Some (skipn (length p) l) else None.
 
@@ -77,8 +91,8 @@ Section CommentFmt.
     | None => None
     | Some comment0 =>
         let new1 := flc_new1 content (flc_comment comment0) in
-        if Nat.eqb (length (trim_ascii_end content)) (length content) then new1
-        else Some (trim_ascii_end (match new1 with Some s => s | None => content end))
+        if Nat.eqb (length (trim_blank_end content)) (length content) then new1
+        else Some (trim_blank_end (match new1 with Some s => s | None => content end))
     end.
 
   (* ---------------- comment_contents.rs: format_compiler_directive ---------------- *)
